@@ -103,8 +103,8 @@ pub fn craft_frame(base: &Base, fi: usize, recode: bool, rng: &mut Rng) -> Vec<u
             // trailing fields are kept as they were, the CRC-8 is recomputed
             if rng.chance(1, 3) {
                 match rng.usize_below(4) {
-                    0 => fr[2] = (fr[2] & 0x0F) | ((rng.usize_below(16) as u8) << 4),
-                    1 => fr[2] = (fr[2] & 0xF0) | rng.usize_below(16) as u8,
+                    0 => fr[2] = (fr[2] & 0x0F) | ((if rng.flip() { 6 + rng.usize_below(2) } else { rng.usize_below(16) } as u8) << 4),
+                    1 => fr[2] = (fr[2] & 0xF0) | if rng.flip() { 12 + rng.usize_below(3) } else { rng.usize_below(16) } as u8,
                     2 => fr[3] = (fr[3] & 0x0F) | ((rng.usize_below(16) as u8) << 4),
                     _ => fr[3] = (fr[3] & 0xF1) | ((rng.usize_below(8) as u8) << 1),
                 }
@@ -136,8 +136,26 @@ pub fn craft_frame(base: &Base, fi: usize, recode: bool, rng: &mut Rng) -> Vec<u
             } else {
                 fr.extend_from_slice(&base.bytes[o + 4..o + 4 + nl]);
             }
-            // optional block-size / sample-rate bytes of the original header
-            fr.extend_from_slice(&base.bytes[o + 4 + nl..o + hl - 1]);
+            // optional block-size / sample-rate bytes: as many as the (possibly re-written) codes
+            // announce - block-size code 0110 one byte, 0111 two; rate code 1100 one byte, 1101 and
+            // 1110 two - the original ones where the code is unchanged, otherwise extreme or
+            // random values (0x00, 0xFF, 0xFFFF ... : "block size - 1" at both ends of its range)
+            let orig_extra = &base.bytes[o + 4 + nl..o + hl - 1];
+            let bs_code = fr[2] >> 4;
+            let sr_code = fr[2] & 0x0F;
+            let need = usize::from(bs_code == 6) + 2 * usize::from(bs_code == 7) + usize::from(sr_code == 12) + 2 * usize::from(sr_code == 13 || sr_code == 14);
+            if fr[2] == base.bytes[o + 2] || need == orig_extra.len() && rng.chance(1, 2) {
+                fr.extend_from_slice(orig_extra);
+            } else {
+                for _ in 0..need {
+                    fr.push(match rng.usize_below(4) {
+                        0 => 0xFF,
+                        1 => 0x00,
+                        2 => 0xFE,
+                        _ => rng.next_u64() as u8,
+                    });
+                }
+            }
             fr.push(refdec::crc8(&fr));
             fr.extend_from_slice(&base.bytes[o + hl..o + l - 2]);
             let c16 = refdec::crc16(&fr);
